@@ -13,8 +13,6 @@ import (
 	"strings"
 
 	"github.com/ethereum/go-ethereum/common"
-	"github.com/ethereum/go-ethereum/consensus/misc/eip1559"
-	"github.com/ethereum/go-ethereum/consensus/misc/eip4844"
 	"github.com/ethereum/go-ethereum/core"
 	"github.com/ethereum/go-ethereum/core/txpool"
 	"github.com/ethereum/go-ethereum/core/txpool/blobpool"
@@ -154,6 +152,7 @@ func (h *hist) judgeAdd(ti *txInfo, pre, post *snap, got, want string) {
 		if off := int(ti.tx.Nonce() - st.Nonce); off < len(pre.Index[ti.from]) {
 			h.fReplace = true
 			r.Count("replacements_accepted", 1)
+			h.noteReplacement(ti, pre, off)
 			old := pre.Index[ti.from][off].Hash
 			if _, still := post.LookupTx[old]; still {
 				h.viol("replace:old-still-pooled", fmt.Sprintf("%s was replaced by %s but is still indexed", h.hashName(old), h.txName(ti)))
@@ -185,18 +184,6 @@ func blobFeeJumps(fee *big.Int) float64 {
 	}
 	f, _ := new(big.Float).SetInt(fee).Float64()
 	return math.Log(f) / (math.Log(1.125) * 4 / 3)
-}
-
-func prio1D(heapJumps, txJumps float64) int {
-	j := txJumps - heapJumps
-	if j <= 0 {
-		return int(math.Floor(j))
-	}
-	return int(math.Ceil(j))
-}
-
-func prio(baseJ, txBaseJ, blobJ, txBlobJ float64) int {
-	return min(0, prio1D(baseJ, txBaseJ), prio1D(blobJ, txBlobJ))
 }
 
 func near(a, b, tol float64) bool { return math.Abs(a-b) <= tol }
@@ -278,43 +265,10 @@ func invariants(e *env, s *snap, st map[common.Address]acct, head *types.Header,
 	if stored != s.Stored {
 		add("stored", "stored=%d, sum of storage sizes=%d", s.Stored, stored)
 	}
-	// eviction heap
+	// eviction heap: index map <-> array, population, heap order for the reference priority
+	// recomputed from the accounts' transactions and the current fees (evict.go)
 	if s.Head != nil {
-		if len(s.EvictAddrs) != len(s.Index) {
-			add("evict:population", "evict heap has %d accounts, index %d", len(s.EvictAddrs), len(s.Index))
-		}
-		okHeap := true
-		for i, a := range s.EvictAddrs {
-			if _, ok := s.Index[a]; !ok || len(s.Index[a]) == 0 {
-				add("evict:ghost", "evict heap holds %s which has no pooled txs", name(a))
-				okHeap = false
-			}
-			if j, ok := s.EvictIndex[a]; !ok || j != i {
-				add("evict:index", "evict heap position of %s is %d, index map says %d (present %v)", name(a), i, j, ok)
-			}
-		}
-		wantBase := feeJumps(eip1559.CalcBaseFee(e.config, head))
-		wantBlob := blobFeeJumps(eip4844.CalcBlobFee(e.config, head))
-		// reinit skips re-sorting when both fees moved by less than 0.01 jumps
-		if !near(s.EvictBasefeeJumps, wantBase, 0.0101) || !near(s.EvictBlobfeeJumps, wantBlob, 0.0101) {
-			add("evict:fees", "evict heap fee jumps (%v, %v) do not match the head's fees (%v, %v)", s.EvictBasefeeJumps, s.EvictBlobfeeJumps, wantBase, wantBlob)
-		}
-		if okHeap {
-			pr := func(a common.Address) int {
-				l := s.Index[a]
-				m := l[len(l)-1]
-				return prio(s.EvictBasefeeJumps, m.EvictionExecFeeJumps, s.EvictBlobfeeJumps, m.EvictionBlobFeeJumps)
-			}
-			for i := 1; i < len(s.EvictAddrs); i++ {
-				p := (i - 1) / 2
-				// Judged on the priority only: the execution-tip tie-break is not refreshed on
-				// every append/replacement by the code (heap.Fix only on fee-jump changes).
-				if pr(s.EvictAddrs[i]) < pr(s.EvictAddrs[p]) {
-					add("evict:order", "evict heap: %s (priority %d) sits below %s (priority %d)", name(s.EvictAddrs[i]), pr(s.EvictAddrs[i]), name(s.EvictAddrs[p]), pr(s.EvictAddrs[p]))
-					break
-				}
-			}
-		}
+		heapInvariants(e, s, head, name, add)
 	}
 	// lookup maps
 	for hash, lt := range s.LookupTx {
@@ -451,6 +405,12 @@ type opInfo struct {
 func (h *hist) check(op string, pre *snap) *snap {
 	r := h.r
 	level := 1
+	// eviction-focused histories: the stores are read back on every 6th operation only (their
+	// subject is the eviction order; the per-operation store checks belong to the main family)
+	light := h.focus && h.opNo%6 != 0
+	if light {
+		level = 0
+	}
 	if op == "reopen" || h.opNo == h.walkAt || h.forceWalk {
 		h.forceWalk = false
 		level = 2 // physical walk of both stores
@@ -459,6 +419,7 @@ func (h *hist) check(op string, pre *snap) *snap {
 	s := h.pool.VerifSnapshot(level)
 	hd := h.ch.headBlk()
 	r.Count("snapshots_checked", 1)
+	h.heapStats(s, hd.header)
 	if s.Head == nil || s.Head.Hash() != hd.header.Hash() {
 		h.viol("head-mismatch", fmt.Sprintf("after %s the pool's head is not the chain head", op))
 	}
@@ -525,7 +486,7 @@ func (h *hist) check(op string, pre *snap) *snap {
 	if pre != nil && op != "reopen" {
 		h.explain(op, pre, s)
 	}
-	h.crossCheck(op, s)
+	h.crossCheck(op, s, light)
 	return s
 }
 
@@ -783,7 +744,7 @@ func (h *hist) explain(op string, pre, post *snap) {
 }
 
 // crossCheck compares the snapshot with the public accessors.
-func (h *hist) crossCheck(op string, s *snap) {
+func (h *hist) crossCheck(op string, s *snap, light bool) {
 	r := h.r
 	total := 0
 	var all []blobpool.VerifMeta
@@ -833,7 +794,7 @@ func (h *hist) crossCheck(op string, s *snap) {
 		}
 	}
 	// full retrieval of up to two pooled txs: same hash, blobs byte-identical
-	for k := 0; k < 2 && len(all) > 0; k++ {
+	for k := 0; k < 2 && len(all) > 0 && !light; k++ {
 		m := all[h.rng.Intn(len(all))]
 		h.verifyGet(op, m.Hash)
 	}
